@@ -39,6 +39,10 @@ type step struct {
 	Key   int     `json:"key,omitempty"`
 	Value float64 `json:"value,omitempty"`
 	Str   string  `json:"str,omitempty"`
+	// More: further datapoints of the same series in the same batch (counter +5 and -5 in one map)
+	More []float64 `json:"more,omitempty"`
+	// Noop marks a datapoint that changes no value but must still count as the series' last datapoint
+	Noop bool `json:"noop,omitempty"`
 }
 
 // history is a complete, self-contained case.
@@ -272,13 +276,21 @@ func (c *checker) eval(h *history) {
 	var now int64
 	agg.VerifSetNow(func() time.Time { return time.Unix(0, baseTime+now) })
 	au := newAutomaton(h.Intervals)
-	flushes, dps := 0, 0
+	flushes, dps, noops := 0, 0, 0
 	panicked := c.r.Guard("aggregator-panic", h, func() {
 		for i, s := range h.Steps {
 			now = s.T
 			if !s.Flush {
 				mm := gostatsd.NewMetricMap(false)
 				mm.Receive(s.metric())
+				for _, v := range s.More {
+					m := s.metric()
+					m.Value = v
+					mm.Receive(m)
+				}
+				if s.Noop {
+					noops++
+				}
 				agg.ReceiveMap(mm)
 				au.datapoint(s)
 				dps++
@@ -297,6 +309,7 @@ func (c *checker) eval(h *history) {
 	c.r.Eval(1)
 	c.r.Event("flushes", flushes)
 	c.r.Event("datapoints", dps)
+	c.r.Event("noop_refresh_datapoints", noops)
 	if panicked {
 		return
 	}
@@ -360,6 +373,47 @@ func genHistoryWith(rng *rand.Rand, maxSteps int, intervals [5]int64) *history {
 	n := 5 + rng.Intn(maxSteps-4)
 	members := 0
 	for i := 0; i < n; i++ {
+		if rng.Intn(100) < 12 {
+			// a datapoint that changes nothing (counter 0, counter +5 and -5 in one batch, gauge repeating its
+			// value, set member already present) still is the series' last datapoint: place it so that a flush
+			// falls past the interval counted from the old T but within it counted from the new T, then look again
+			k := series[rng.Intn(len(series))]
+			if iv := h.Intervals[k.typ]; iv > 0 && k.typ != tTimer {
+				first := step{T: t, Type: k.typ, Key: k.key}
+				noop := step{Type: k.typ, Key: k.key, Noop: true}
+				switch k.typ {
+				case tCounter:
+					first.Value = float64(1 + rng.Intn(5))
+					if rng.Intn(2) == 0 {
+						noop.Value, noop.More = 5, []float64{-5}
+					}
+				case tGauge:
+					first.Value = float64(rng.Intn(2001)-1000) / 4
+					noop.Value = first.Value
+				case tSet:
+					first.Str = "m0"
+					noop.Str = "m0"
+				}
+				h.Steps = append(h.Steps, first)
+				if k.typ != tSet && rng.Intn(2) == 0 { // the series is idle and persisted when the no-op arrives
+					h.Steps = append(h.Steps, step{Flush: true, T: t})
+				}
+				d := pick(rng, 1, iv/2, iv-1, iv)
+				if d < 1 {
+					d = 1
+				}
+				noop.T = t + d
+				f1 := t + iv + 1                                        // past the interval from the old T, at most iv after the new one
+				f2 := pick(rng, f1, f1, noop.T+iv, f1+(noop.T+iv-f1)/2) // still within the interval from the new T
+				h.Steps = append(h.Steps, noop, step{Flush: true, T: f1}, step{Flush: true, T: f2})
+				if _, ok := last[k]; !ok {
+					fed = append(fed, k)
+				}
+				last[k] = noop.T
+				t = f2
+				continue
+			}
+		}
 		forceFlush := false
 		switch x := rng.Intn(10); {
 		case x < 3:
@@ -449,7 +503,7 @@ func corpus() []*history {
 func TestCheck(t *testing.T) {
 	r := mon.Start(t, "C09")
 	defer r.Finish()
-	r.Rule("cases: histories of up to 40 steps (datapoint(type,key) at t | flush at t) over at most 6 series of the four types, non-decreasing virtual t with deltas from {0, 1ns, around 1s, around 10s, around 1h} and 30% of the flushes aimed at T+expiry+{-1ns,0,+1ns,+1s} of a live series; per-type expiry drawn independently from {-1s, 0, 1s, 10s, 1h}; the aggregator clock is set (VerifSetNow) to the virtual t before every step, datapoint timestamps are the virtual t; flush = Flush + Process(capture) + Reset on a real MetricAggregator. Oracle: per-series expiry automaton (present until the first flush later than T+expiry, forever for 0, one flush for negative) comparing the key set of every flushed map, the idle values (counter 0/0, set empty, timer count 0 / no values / no percentiles) and the gauge's last value. Plus a fixed corpus walking each (type, expiry) across its boundary. Non-trivial: a history in which at least one series expires and at least one re-appears after expiry; distinct by (sign pattern of the four expiries, set of boundary distances met: -1ns, eq, +1ns, <=1s, >1s, neg). Configuration phase (shard 0): cmd/gostatsd of the tree under test is built with the verif tag and run about 550 times (GOSTATSD_VERIF_DUMP_SERVER=1 prints the constructed server and exits) over expiry-interval in {unset, 0, -1s, 1s, 10m} x per-type settings in {unset, 0, -1s, 30s} (none, each type alone, all four, random combinations; two spellings per value), given by command-line flag, GSD_ environment variable, TOML file, YAML file, or a different source per parameter; oracle = README precedence: own setting, else expiry-interval, else 5m (0 stays 0, negative stays negative); distinct by (source kind, which types are overridden, sign of expiry-interval). Twelve of the dumped interval tuples then drive 25 automaton histories each.")
+	r.Rule("cases: histories of up to 40 steps (datapoint(type,key) at t | flush at t) over at most 6 series of the four types, non-decreasing virtual t with deltas from {0, 1ns, around 1s, around 10s, around 1h} and 30% of the flushes aimed at T+expiry+{-1ns,0,+1ns,+1s} of a live series; per-type expiry drawn independently from {-1s, 0, 1s, 10s, 1h}; the aggregator clock is set (VerifSetNow) to the virtual t before every step, datapoint timestamps are the virtual t; flush = Flush + Process(capture) + Reset on a real MetricAggregator. Oracle: per-series expiry automaton (present until the first flush later than T+expiry, forever for 0, one flush for negative) comparing the key set of every flushed map, the idle values (counter 0/0, set empty, timer count 0 / no values / no percentiles) and the gauge's last value. Plus a fixed corpus walking each (type, expiry) across its boundary. 12% of the generator steps are a no-op refresh: a datapoint that changes no value (counter 0, counter +5 and -5 in one batch, gauge repeating its value, set member already present) placed so that a flush falls past the interval from the old T but within it from the new T, followed by a second flush at which the series must still be reported. Non-trivial: a history in which at least one series expires and at least one re-appears after expiry; distinct by (sign pattern of the four expiries, set of boundary distances met: -1ns, eq, +1ns, <=1s, >1s, neg). Server phase (one shard): four real standalone statsd.Server instances (scripted PacketConn, capturing backend, one aggregator, flush interval 200ms on the real clock, logging statser) with per-type expiry from {-1ns, 0, 80ms, 600ms} arranged as a Latin square receive one datagram with the four types about 35ms before a flush; the series own timestamp T and, per flush, the bracket [process_time log line, reset_time log line] around the Reset are recorded; presence at the next flush is asserted only when Reset-T is on one side of the expiry for the whole bracket (2ms margin), otherwise the step is inconclusive; distinct by (type, interval class, expected presence). Configuration phase (shard 0): cmd/gostatsd of the tree under test is built with the verif tag and run about 550 times (GOSTATSD_VERIF_DUMP_SERVER=1 prints the constructed server and exits) over expiry-interval in {unset, 0, -1s, 1s, 10m} x per-type settings in {unset, 0, -1s, 30s} (none, each type alone, all four, random combinations; two spellings per value), given by command-line flag, GSD_ environment variable, TOML file, YAML file, or a different source per parameter; oracle = README precedence: own setting, else expiry-interval, else 5m (0 stays 0, negative stays negative); distinct by (source kind, which types are overridden, sign of expiry-interval). Twelve of the dumped interval tuples then drive 25 automaton histories each.")
 	r.Assume("datapoints at one instant for one gauge are unordered: either value is accepted as the last value")
 	c := &checker{r: r}
 
@@ -457,11 +511,14 @@ func TestCheck(t *testing.T) {
 		var rc struct {
 			history
 			Invocation *invocation `json:"invocation"`
+			Server     *srvCase    `json:"server_case"`
 		}
-		if mon.ReplayCase(p, &rc) == nil || (rc.Invocation == nil && len(rc.Steps) == 0) {
+		if mon.ReplayCase(p, &rc) == nil || (rc.Invocation == nil && rc.Server == nil && len(rc.Steps) == 0) {
 			t.Skip("no case in replay file")
 		}
-		if rc.Invocation != nil {
+		if rc.Server != nil {
+			serverPhase(t, r) // real time: the four servers are simply run again
+		} else if rc.Invocation != nil {
 			replayInvocation(t, r, rc.Invocation)
 		} else {
 			c.eval(&rc.history)
@@ -476,6 +533,10 @@ func TestCheck(t *testing.T) {
 	for i := 0; i < n; i++ {
 		h := genHistory(rng, 40)
 		c.eval(h)
+	}
+	if s, n := r.Shard(); s == 1%n {
+		// server-level phase: a real statsd.Server on the real clock, judged on recorded brackets
+		serverPhase(t, r)
 	}
 	if s, _ := r.Shard(); s == 0 {
 		cs := corpus()
